@@ -35,6 +35,10 @@ Spellings == {L("010", 8, <<1, 0>>, FALSE), L("017", 8, <<1, 7>>, FALSE), L("0x1
               L("0x8000000000000000", 16, <<8>> \o [i \in 1..15 |-> 0], FALSE),
               L("01777777777777777777777", 8, <<1>> \o [i \in 1..21 |-> 7], FALSE),
               L("0777", 8, <<7, 7, 7>>, FALSE), L("00", 8, <<0>>, FALSE), L("0x0", 16, <<0>>, FALSE),
+              \* prefixes combined with suffixes
+              L("010u", 8, <<1, 0>>, TRUE), L("0777UL", 8, <<7, 7, 7>>, TRUE), L("017ll", 8, <<1, 7>>, FALSE),
+              L("0x10L", 16, <<1, 0>>, FALSE), L("0x1fu", 16, <<1, 15>>, TRUE), L("0b11u", 2, <<1, 1>>, TRUE),
+              L("0u", 10, <<0>>, TRUE), L("0L", 10, <<0>>, FALSE),
               Ch("'a'", 97), Ch("'0'", 48), Ch("' '", 32), Ch("'\\n'", 10), Ch("'\\0'", 0), Ch("'\\t'", 9),
               Ch("'\\\\'", 92), Ch("'\\''", 39), Ch("'\\x41'", 65), Ch("'\\101'", 65), Ch("'\\a'", 7), Ch("'\"'", 34),
               Ch("'/'", 47), Ch("'*'", 42)}
